@@ -87,6 +87,29 @@ PROPS = {
                         "are covered by uniformity of the loops, not by enumeration."),
         "trusted_base": [KANI_TRUST, OS_TRUST, "std::process::Command passes program/args/env/cwd to the child unchanged and without a shell (assumed)"],
     },
+    "C09": {
+        "level": "other",
+        "design_ref": "DESIGN.md section 5, C09",
+        "summary": ("Static rules, context half: Resolver::check_stmt for comot / next / return is checked for every loop depth and "
+                    "function context, and Resolver::check_function_body against its contract -- the body is checked with loop depth 0 "
+                    "and inside a function whatever encloses the definition, and in_loop / current_function / current_owner / scope stacks "
+                    "are restored exactly (frame). AST nodes are concrete, resolver state symbolic."),
+        "not_covered": ("the operator/operand typing table inside check_expr (a single call of the 400-line check_expr with a symbolic "
+                        "operator does not terminate in CBMC), undeclared-name, arity, duplicate-function/parameter and reserved-name rules, "
+                        "type tracking across re-declarations, and acceptance of all well-formed programs."),
+        "trusted_base": [KANI_TRUST, OS_TRUST, "predeclare_block_functions used through a registration-only contract stub in the check_function_body harness (its HashSet code is outside CBMC's reach)"],
+    },
+    "C14": {
+        "level": "other",
+        "design_ref": "DESIGN.md section 5, C14",
+        "summary": ("Allocator half of 'runs do not influence each other': scratch_arena(conflict) never returns the conflicting arena "
+                    "(so resolver tables and the runtime frame stacked on one scratch arena cannot free persistent data growing on the other), "
+                    "ScratchArena::drop restores the offset seen at creation in LIFO order, scratch::init returns both global arenas to offset 0, "
+                    "and alloc_raw's result depends on (offset, request) only, never on commit history or memory contents."),
+        "not_covered": ("that the CLI prints exactly what the library pipeline computes, exit statuses, and stdin/--eval routing: whole-pipeline "
+                        "I/O equivalence has no callee-level statement a contract can carry (pipeline half not applicable to this technique)."),
+        "trusted_base": [KANI_TRUST, OS_TRUST],
+    },
 }
 
 
